@@ -360,7 +360,7 @@ class Element(Node):
         self.childNodes=[]
         self.allowed_children = grammar.allowed_children.get(self.qname)
         prefix = self.get_nsprefix(self.qname[0])
-        self.tagName = prefix + ":" + self.qname[1]
+        self.tagName = (prefix + ":" + self.qname[1]) if prefix else self.qname[1]
         if text is not None:
             self.addText(text)
         if cdata is not None:
@@ -407,7 +407,8 @@ class Element(Node):
         """ Odfpy maintains a list of known namespaces. In some cases we have a namespace URL,
             and needs to look up or assign the prefix for it.
         """
-        if namespace is None: namespace = ""
+        if namespace is None or namespace == "":
+            return ""  # names in no namespace are written without prefix
         prefix = _nsassign(namespace)
         if not namespace in self.namespaces:
             self.namespaces[namespace] = prefix
@@ -558,7 +559,8 @@ class Element(Node):
                 f.write(u' xmlns:' + prefix + u'="'+ _sanitize(str(namespace))+'"')
         for qname in self.attributes.keys():
             prefix = self.get_nsprefix(qname[0])
-            f.write(u' '+_sanitize(str(prefix+u':'+qname[1]))+u'='+_quoteattr(unicode(self.attributes[qname])))
+            name = (prefix+u':'+qname[1]) if prefix else qname[1]
+            f.write(u' '+_sanitize(str(name))+u'='+_quoteattr(unicode(self.attributes[qname])))
         f.write(u'>')
 
     def write_close_tag(self, level, f):
@@ -576,7 +578,8 @@ class Element(Node):
                 f.write(u' xmlns:' + prefix + u'="'+ _sanitize(str(namespace))+u'"')
         for qname in self.attributes.keys():
             prefix = self.get_nsprefix(qname[0])
-            f.write(u' '+_sanitize(unicode(prefix+':'+qname[1]))+u'='+_quoteattr(unicode(self.attributes[qname])))
+            name = (prefix+u':'+qname[1]) if prefix else qname[1]
+            f.write(u' '+_sanitize(unicode(name))+u'='+_quoteattr(unicode(self.attributes[qname])))
         if self.childNodes:
             f.write(u'>')
             for element in self.childNodes:
